@@ -319,11 +319,23 @@ fn parse_struct_members(
 {
 	tokens.consume(BaseToken::BraceLeft)?;
 	let mut list = buffer.start_list();
-	while !tokens.consume_optional(BaseToken::BraceRight)
+	loop
 	{
+		if tokens.consume_optional(BaseToken::BraceRight)
+		{
+			break;
+		}
 		let member = parse_member(tokens, buffer)?;
-		tokens.consume(BaseToken::Comma)?;
 		buffer.push_list_item(member, &mut list);
+		if tokens.consume_optional(BaseToken::Comma)
+		{
+			continue;
+		}
+		else
+		{
+			tokens.consume(BaseToken::BraceRight)?;
+			break;
+		}
 	}
 	let start_of_list = buffer.push_end_of_list(list);
 	Ok(start_of_list)
